@@ -2,7 +2,7 @@
 # try_patch.sh <patch.diff> <property>... : applies a patch to /repo, runs the quick checks of the
 # given properties, prints their verdicts, and always restores /repo's working tree.
 set -u
-patch="$1"; shift
+patch="$(readlink -f "$1")"; shift
 cd /repo || exit 2
 if ! git diff --quiet; then echo "/repo has uncommitted changes; refusing"; exit 2; fi
 if ! git apply --3way "$patch" 2>/dev/null && ! git apply "$patch"; then echo "PATCH-DOES-NOT-APPLY $patch"; git checkout -q -- . ; exit 2; fi
